@@ -79,7 +79,10 @@ impl Ctx {
         if let Some(c) = self.only_case {
             return vec![c];
         }
-        (0..total).filter(|c| c % self.nshards == self.shard).collect()
+        // case c belongs to shard (c + c / nshards) % nshards: each block of nshards cases is rotated by its
+        // block number, so that selectors such as `case % 16 == 0` or `case % 400 == 0` (the expensive
+        // special cases) are spread over all workers instead of landing on one
+        (0..total).filter(|c| (c + c / self.nshards) % self.nshards == self.shard).collect()
     }
 
     pub fn begin_case(&mut self, case: u64) {
@@ -123,7 +126,9 @@ impl Ctx {
         if *c <= 2 {
             let dir = self.replay_dir.join(&self.prop);
             let _ = std::fs::create_dir_all(&dir);
-            let name = format!("{:016x}-s{}-c{}-{}.json", crate::rng::fnv(signature), self.seed, self.current_case, *c);
+            // (the build variant the worker was built as: default, or "mt" / "release" - see check)
+            let variant = std::env::var("VERIF_VARIANT").unwrap_or_default();
+            let name = format!("{:016x}-s{}-c{}-{}{}.json", crate::rng::fnv(signature), self.seed, self.current_case, *c, if variant.is_empty() { String::new() } else { format!("-{}", variant) });
             let path = dir.join(name);
             let doc = J::obj(vec![
                 ("property", J::s(&self.prop)),
@@ -132,6 +137,8 @@ impl Ctx {
                 ("seed", J::i(self.seed)),
                 ("case", J::i(self.current_case)),
                 ("tier", J::s(if self.tier == Tier::Quick { "quick" } else { "thorough" })),
+                ("variant", J::s(&variant)),
+                ("scale", J::s(std::env::var("VERIF_SCALE").unwrap_or_default())),
                 ("replay_cmd", J::s(format!("./check {} --replay {}", self.prop, path.display()))),
                 ("inputs", replay),
             ]);
